@@ -13,8 +13,8 @@ EXPLANATION = ('Inductive step instead of history enumeration: a VALID state is 
                'the data\'s shape, are spaced by the current dx, r,t are the polar coordinates of x,y) is decided afterwards, also after reading '
                'x/y/r/t again; since the mutators are also checked to return a valid state, one step covers histories of any length. '
                'Statistics identities/inequalities are decided on field-level symbolic samples.')
-BOUNDS = {'quick': 'data shapes 3x3, 3x4, 4x3, 4x5 with 4 NaN patterns; two-step sequences for the cache-sensitive mutators; statistics on 3 and 4 samples',
-          'thorough': 'shapes up to 5x6, 6 NaN patterns, all two-step sequences; statistics on up to 5 samples'}
+BOUNDS = {'quick': 'data shapes 3x3, 3x4, 4x3, 4x5 with 4 NaN patterns; two-step sequences for the cache-sensitive mutators; statistics on 3 and 4 samples; Sa and PV against their definitions over every ordering of 3-4 samples',
+          'thorough': 'shapes up to 5x6, 6 NaN patterns, all two-step sequences; statistics on up to 5 samples; 5 samples'}
 OUTSIDE = 'Interferogram.filter (Bessel/jinc kernel not modelled), pvr (37-term fit), psd/bandlimited_rms (C13), plotting'
 NDERIVED = 80
 MAX_PATHS = 64
